@@ -49,6 +49,7 @@ type optInfo struct {
 	Path     string
 	LongFull string
 	EnvFull  string
+	EnvNS    []string // env-namespaces of the enclosing groups and commands, outermost first
 }
 
 func appendNS(ns []string, n string) []string {
@@ -75,6 +76,7 @@ func optInfos(d *DeclSpec) []optInfo {
 			}
 			if o.Env != "" {
 				oi.EnvFull = strings.Join(append(append([]string{}, ens...), o.Env), envNSDelim(d))
+				oi.EnvNS = append([]string{}, ens...)
 			}
 			out = append(out, oi)
 		}
